@@ -309,9 +309,63 @@ def all_histories(ctx):
         yield label, data, [rng.choice(EDITS) for _ in range(rng.choice([5, 12, 30]))], i + 1
 
 
+def file_backed(ctx, f, analysis):
+    """The same pickle parsed from a file object and from bytes, then the file is overwritten / removed and the working
+    directory changes: the two objects stay interchangeable under the same edits (what was parsed is what is kept)."""
+    import os
+    import pickle
+    agg = ctx.agg
+    blobs = [pickle.dumps({"step": 1, "weights": b"w" * 70000, "tail": [1, 2]}, 2), pickle.dumps(["x" * 66000, {"k": b"y" * 9000}], 4),
+             b"(K\x01B" + (131072).to_bytes(4, "little") + b"z" * 131072 + b"K\x02t."]
+    for bi, data in enumerate(blobs):
+        for spelling in ("absolute", "relative"):
+            key = h(f"file-backed|{bi}|{spelling}".encode())
+            if not ctx.mine(key.encode()) or not agg.case(key, True, {"start": "file-backed", "spelling": spelling, "bytes": len(data)}):
+                continue
+            d1 = os.path.join(ctx.scratch, "c14_dir_a")
+            d2 = os.path.join(ctx.scratch, "c14_dir_b")
+            os.makedirs(d1, exist_ok=True)
+            os.makedirs(d2, exist_ok=True)
+            path = os.path.join(d1, "ckpt.pkl")
+            with open(path, "wb") as fh:
+                fh.write(data)
+            with open(os.path.join(d2, "ckpt.pkl"), "wb") as fh:
+                fh.write(b"\x80\x02N." + b"\x00" * len(data))
+            os.chdir(d1)
+            try:
+                with open("ckpt.pkl" if spelling == "relative" else path, "rb") as fh:
+                    p = f.Pickled.load(fh)
+                q = f.Pickled.load(data)
+                with open(path, "wb") as fh:          # the file is written over (saving in place starts like this) ...
+                    fh.write(b"\x80\x02N.")
+                os.chdir(d2)                            # ... and the process moves on
+                steps = [lambda x: None, lambda x: x.insert_python_exec("v = 1"), lambda x: x.insert(2, f.Pickled.load(b"K\x07.")[0]),
+                         lambda x: x.insert(3, f.Pickled.load(b"0.")[0]), lambda x: x.__delitem__(2), lambda x: x.append_python("1", pop_result=True)]
+                for si, step in enumerate(steps):
+                    step(p)
+                    step(q)
+                    agg.count("file_backed_steps")
+                    vp_, vq = views(p, analysis), views(q, analysis)
+                    buf = io.BytesIO()
+                    p.dump(buf)
+                    if p.dumps() != q.dumps() or buf.getvalue() != q.dumps() or vp_ != vq:
+                        agg.violation("file-backed-object-differs",
+                                      f"a pickle parsed from a file ({spelling} name) and the same bytes parsed from memory differ after "
+                                      f"step {si} once the file was overwritten and the working directory changed "
+                                      f"(dumps {len(p.dumps())} vs {len(q.dumps())} bytes)",
+                                      {"label": "file-backed", "hex": data[:200].hex(), "history": ["file-backed", spelling], "step": si})
+                        break
+            finally:
+                os.chdir(ctx.scratch)
+                for pth in (path, os.path.join(d2, "ckpt.pkl")):
+                    if os.path.exists(pth):
+                        os.remove(pth)
+
+
 def run_shard(ctx):
     import fickling.fickle as f
     import fickling.analysis as analysis
+    file_backed(ctx, f, analysis)
     for label, data, hist, hseed in all_histories(ctx):
         run_history(ctx, f, analysis, label, data, hist, hseed)
 
